@@ -723,6 +723,25 @@ func (q *qgen) queryText(graphs []string) string {
 		proj = []string{"?a"}
 		xp = []string{hx("?a") + "|" + hx("") + "|0|0"}
 	}
+	if len(bs) >= 2 && r.chance(1, 6) {
+		// an alias spelled like a pattern binding that is itself projected further on (or a swap of two
+		// bindings): projection is simultaneous, each column shows the solution's value of its binding
+		pm := r.perm(len(bs))
+		a, b := bs[pm[0]], bs[pm[1]]
+		second := b + "x"
+		if r.chance(1, 2) {
+			second = a
+		}
+		proj = []string{a + " as " + b, b + " as " + second}
+		xp = []string{hx(a) + "|" + hx(b) + "|0|0", hx(b) + "|" + hx(second) + "|0|0"}
+		for _, c := range pm[2:] {
+			if r.chance(1, 2) {
+				proj = append(proj, bs[c])
+				xp = append(xp, hx(bs[c])+"|"+hx("")+"|0|0")
+			}
+		}
+		q.hist["shadowing-alias"]++
+	}
 	var xgs []string
 	for _, g := range graphs {
 		xgs = append(xgs, hx(g))
